@@ -28,7 +28,7 @@ TRUSTED = ["reader contracts of C03 (_readline/_readsegment/_readvalue) used at 
            "meta-lemma C01.compose: Sync at every public exit => every byte a call parses answers its own commands"]
 ASSUMPTIONS = ["the server answers a command that does not carry the noreply marker with exactly one terminator-ended unit",
                "faults are Exception-class (asynchronous interruptions are C10)"]
-NOT_COVERED = ["multi-key fetches (get_many / gets_many), stats, cache_memlimit; set_many's wrapper; version / quit / shutdown wrappers",
+NOT_COVERED = ["stats, cache_memlimit; set_many's wrapper; version / quit / shutdown wrappers",
                "raw_command with a caller-chosen end token (unit boundary is whatever the caller says)",
                "PooledClient / HashClient wrappers: C09 shows a failed pooled client is destroyed and closed; HashClient pending",
                "'never blocks' beyond 'performs no read': termination is not decided by this family"]
@@ -42,5 +42,8 @@ def build(E, tier):
     cm.verify_public_misc(E)
     cm.verify_delete_many(E)
     cm.verify_fetch_cmd(E, names=("get", "gets", "gat", "gats") if tier == "thorough" else ("get", "gats"))
+    cm.verify_fetch_many(E, names=("get", "gets") if tier == "thorough" else ("get",),
+                         iter_kinds=("re-iterable", "one-shot") if tier == "thorough" else ("one-shot",))
     cm.verify_public_store(E)
     cm.verify_public_fetch(E)
+    cm.verify_public_fetch_many(E)
